@@ -154,13 +154,19 @@ def run_html(task):
 
 def confirm_html(binary, prop, v, idx):
     """Replay: an html comment in a list item, in a block quote and after a byte-order mark: the start tag's
-    `<` is at byte column 8 / 8 / 9 of its line."""
+    `<` is at byte column 8 / 8 / 9 of its line.  And a comment that starts on the first line of its html
+    block (a list item) and closes on the next one, with content right after `-->`: the offending key of
+    a line-pattern violation there sits at the columns it has in the file (the END of the comment is on a
+    later line of the block, so its column is not shifted)."""
     files = {
         'list.md': b'- item\n\n  <!-- <block name="li" line-count="<0"> -->\n  text\n\n  <!-- </block> -->\n',
         'quote.md': b'> quote\n> <!-- <block name="q" line-count="<0"> -->\n> t\n>\n> <!-- </block> -->\n',
         'bom.md': b'\xef\xbb\xbf<!-- <block name="x" line-count="<0"> -->\ntext\n<!-- </block> -->\n',
         'plain.md': b'para\n\n<!-- <block name="p" line-count="<0"> -->\ntext\n\n<!-- </block> -->\n',
     }
+    multi = b'- <!-- <block name="b"\n  line-pattern="^[a-z]+$"> --> BAD1\n  <!-- </block> -->\n'
+    line2 = multi.split(b'\n')[1]
+    want_multi = [((2, line2.index(b'BAD1') + 1), (2, line2.index(b'BAD1') + 4))]
     want = {'list.md': (3, 8), 'quote.md': (2, 8), 'bom.md': (1, 9), 'plain.md': (3, 6)}
     d = scratch_dir('mdhtml')
     try:
@@ -168,6 +174,8 @@ def confirm_html(binary, prop, v, idx):
         for fn, content in files.items():
             open(os.path.join(d, fn), 'wb').write(content)
         r = run_blockwatch(binary, d, ['list', '**'], stdin=b'')
+        open(os.path.join(d, 'multi.md'), 'wb').write(multi)
+        r2 = run_blockwatch(binary, d, ['multi.md'], stdin=b'')
     finally:
         shutil.rmtree(d, ignore_errors=True)
     got = {}
@@ -176,12 +184,20 @@ def confirm_html(binary, prop, v, idx):
             got[fn] = (bl[0]['line'], bl[0]['column'])
     except (ValueError, IndexError, KeyError):
         pass
-    v['observed'] = got
-    v['expected'] = want
-    v['confirmed'] = got != want
+    got_multi = None
+    try:
+        got_multi = [((x['range']['start']['line'], x['range']['start']['character']), (x['range']['end']['line'], x['range']['end']['character']))
+                     for x in json.loads(r2['stderr']).get('multi.md', []) if x.get('code') == 'line-pattern']
+    except (ValueError, KeyError, TypeError):
+        pass
+    v['observed'] = dict(tags=got, multi=got_multi)
+    v['expected'] = dict(tags=want, multi=want_multi)
+    v['confirmed'] = got != want or got_multi != want_multi
     if v['confirmed']:
-        v['replay'] = save_replay(prop, 'mdhtml-%s-%d' % (v['role'], idx), files, "list '**'",
-                                  'expected (line, column) of the start tags %s; %s' % (want, v['summary']), v)
+        files = dict(files)
+        files['multi.md'] = multi
+        v['replay'] = save_replay(prop, 'mdhtml-%s-%d' % (v['role'], idx), files, "list '**'   and   multi.md",
+                                  'expected (line, column) of the start tags %s and the line-pattern range %s in multi.md; %s' % (want, want_multi, v['summary']), v)
     return v
 
 
